@@ -206,6 +206,27 @@ def rule_x3(ctx, R):
             R.finding(fn, desc + ":stored-value-origin",
                       "value inserted into the key space is neither a freshly constructed StoredValue nor the StoredValue removed from the old key (origins: %s): TTL would not be dropped on overwrite / would not travel on rename" % calls, b.loc(i))
     R.floor("shard_map_inserts", ni)
+    # (d) RENAME moves the entry as a whole: it never writes the `.value` of an entry that is
+    # already in the map (the destination would keep its own metadata, i.e. its own TTL)
+    rb = ctx.prog.bodies.get(ENGINE + "rename")
+    if rb is not None:
+        bad = None
+        VAL = "storage::value::StoredValue.value"
+        for i, bb in enumerate(rb.bbs):
+            if bb.get("cleanup"):
+                continue
+            for st in bb["s"]:
+                if st["k"] == "=" and "*" in st["l"]["p"] and any(isinstance(e, dict) and e.get("f") == VAL for e in st["l"]["p"]) and shared.from_dataset(rb, {"cp": {"l": st["l"]["l"], "p": []}}):
+                    bad = bad or i
+            t = bb["t"]
+            if t["k"] == "call" and re.search(r"^std::mem::(replace|swap|take)::<", t["f"] or "") and t["a"] and not op_is_const(t["a"][0]):
+                P = prov.operand_origins(rb, t["a"][0])
+                if VAL in P.fields and shared.from_dataset(rb, t["a"][0]):
+                    bad = bad or i
+        R.inst(rb.fn, "rename-moves-whole-entry", {"writes_value_of_an_existing_entry": bad is not None})
+        if bad is not None:
+            R.finding(rb.fn, "rename:value-without-metadata",
+                      "rename writes the `.value` of an entry that is already in the map (line %d) instead of putting the removed StoredValue there as a whole: the destination keeps its own metadata, so the TTL does not travel with the value (and a destination without TTL makes the key immortal)" % rb.bb_line(bad), rb.loc(bad))
 
 
 # commands that replace the whole value (and with it the TTL) or only remove / retime the key; every
